@@ -80,7 +80,7 @@ def asjson(obj: Any, seen: set[int] | None = None) -> Any:
                     if not isinstance(serializable, type):
                         result = serializable.__json__(seen=seen)
                     else:
-                        result = serializable
+                        result = repr(serializable)
                 case enum.Enum() as en:
                     result = dfs(en.value)
                 case _ if isinstance(
